@@ -802,7 +802,9 @@ func (lc *leaderController) write(ctx context.Context, requestSupplier func(offs
 	walLog := lc.wal
 	tracker := lc.quorumAckTracker
 	term := lc.term
-	lc.Unlock()
+	// The lock is held until the entry is appended to the WAL: offsets must reach the log in the
+	// order they were allocated, and a new-term request must not be answered in between
+	defer lc.Unlock()
 	request := requestSupplier(newOffset)
 
 	lc.log.Debug("Append operation", slog.Any("req", request))
